@@ -1148,12 +1148,31 @@ class Engine:
         f = self.uf('op_' + name, V, V, V)
         return Obj(f(self.to_V(l), self.to_V(r)), taint=tt)
 
+    def _ieee_anchor(self, node, divisor_src):
+        """Does the divisor match an `ieee_zero_division_assumed_away` entry?  An entry is either the divisor's source text or
+        `scaled:<name>`: any product of numeric literals with the one variable <name> (so the assumption survives a changed constant)."""
+        src = divisor_src.replace(' ', '')
+        dn = node.right if isinstance(node, ast.BinOp) else (node.value if isinstance(node, ast.AugAssign) else None)
+        for x in self.c.get('ieee_zero_division_assumed_away', ()):
+            if x.startswith('scaled:'):
+                if dn is None:
+                    continue
+                names = {n.id for n in ast.walk(dn) if isinstance(n, ast.Name)}
+                shape = all(isinstance(n, (ast.Name, ast.Constant, ast.Load, ast.Mult)) or (isinstance(n, ast.BinOp) and isinstance(n.op, ast.Mult))
+                            for n in ast.walk(dn))
+                nums = all(isinstance(n.value, (int, float)) and n.value != 0 for n in ast.walk(dn) if isinstance(n, ast.Constant))
+                if names == {x[7:]} and shape and nums:
+                    return True
+            elif x.replace(' ', '') == src:
+                return True
+        return False
+
     def division(self, st, b, npy, node):
         pol = self.c.get('division', 'python')
         if z3.is_rational_value(b) or z3.is_int_value(b):
             return
         divisor_src = ast.unparse(node.right) if isinstance(node, ast.BinOp) else (ast.unparse(node.value) if isinstance(node, ast.AugAssign) else '')
-        if npy and divisor_src.replace(' ', '') in [x.replace(' ', '') for x in self.c.get('ieee_zero_division_assumed_away', ())]:
+        if npy and self._ieee_anchor(node, divisor_src):
             # anchored on the divisor expression, not on a line number
             self.note('ASSUMED: numpy division by `%s` has a non-zero divisor (IEEE inf path argued in the contract, not proved)' % divisor_src)
             st.assume(b != 0)
